@@ -440,29 +440,35 @@ pub mod walkdir {
             !self.0
         }
     }
-    #[derive(Clone, Copy)]
-    pub struct PathRef<'a>(&'a Path, bool);
-    impl<'a> PathRef<'a> {
-        pub fn is_file(&self) -> bool {
-            self.1
-        }
-        pub fn file_name(&self) -> Option<&'a ::std::ffi::OsStr> {
-            self.0.file_name()
+    /// `is_file()` on a path, a walkdir file type or file metadata, answered from the in-memory file system
+    /// (the generator rewrites `.is_file()` to `.model_is_file()` in record_store.rs, so that `DirEntry::path()` can
+    /// hand out a real `&Path` and refactored code that stores or returns it keeps building)
+    pub trait ModelIsFile {
+        fn model_is_file(&self) -> bool;
+    }
+    impl ModelIsFile for Path {
+        fn model_is_file(&self) -> bool {
+            symrt::env::fs::exists(self)
         }
     }
-    impl<'a> AsRef<Path> for PathRef<'a> {
-        fn as_ref(&self) -> &Path {
+    impl ModelIsFile for PathBuf {
+        fn model_is_file(&self) -> bool {
+            symrt::env::fs::exists(self)
+        }
+    }
+    impl ModelIsFile for FileType {
+        fn model_is_file(&self) -> bool {
             self.0
         }
     }
-    impl<'a> ::std::fmt::Debug for PathRef<'a> {
-        fn fmt(&self, f: &mut ::std::fmt::Formatter<'_>) -> ::std::fmt::Result {
-            write!(f, "{:?}", self.0)
+    impl ModelIsFile for symrt::env::fs::Metadata {
+        fn model_is_file(&self) -> bool {
+            self.is_file()
         }
     }
     impl DirEntry {
-        pub fn path(&self) -> PathRef<'_> {
-            PathRef(&self.path, self.is_file)
+        pub fn path(&self) -> &Path {
+            &self.path
         }
         pub fn into_path(self) -> PathBuf {
             self.path
